@@ -14,7 +14,7 @@ import copy
 from pbsim import gen, lib, simgen
 from pbsim.digest import dexc, dq, drows
 from pbsim.forkrun import run_in_fork
-from pbsim.simprop import minimise_spec, record, replay_spec, run_spec, summarise_sim
+from pbsim.simprop import minimise_spec, record, replay_spec, run_spec, summarise_sim, sweep_interrupts
 from pbsim.util import rng_for, sha
 from pbsim.world import Builder, empty_world
 
@@ -271,8 +271,13 @@ def run_case(seed, tier, idx):
                 "sample": {"seed": seed, "mode": "sweep", "cfg": spec["cfg"], "distance": spec["dist"],
                            "look": spec["world"]["shots"][0]["look"], "reference_outcome": res["ref_kind"],
                            "caps": CAPS, "stats": st}}
-    hist, viol, stats = run_spec(spec)
-    rec = record(spec, hist, [_tag(v) for v in viol], stats)
+    r = rng_for(seed, "sweep").random()
+    p_int, n = (0.3, 24) if tier == "thorough" else (0.06, 8)
+    if r < p_int:
+        rec = sweep_interrupts(spec, None, n, post=lambda s, h, v: [_tag(x) for x in v])
+    else:
+        hist, viol, stats = run_spec(spec)
+        rec = record(spec, hist, [_tag(v) for v in viol], stats)
     rec["mode2"] = "history"
     return rec
 
